@@ -243,6 +243,10 @@ pub fn base_name(key: &str) -> String {
 
 impl MFs {
     pub fn from_tree(tree: &[Entry]) -> MFs {
+        Self::from_tree_as(tree, (0, 0))
+    }
+
+    pub fn from_tree_as(tree: &[Entry], default_owner: (u32, u32)) -> MFs {
         let mut nodes = BTreeMap::new();
         nodes.insert(String::new(), MNode { kind: MKind::Dir, mode: Some(0o755), mtime: MTime::Any, xattrs: vec![], owner: None, origin: Origin::Initial, hl: None });
         for e in tree {
@@ -266,7 +270,7 @@ impl MFs {
             let (s, ns) = e.mtime.unwrap_or(DEFAULT_MTIME);
             nodes.insert(
                 e.path.clone(),
-                MNode { kind, mode: Some(e.eff_mode()), mtime: MTime::At(s, ns), xattrs: e.xattrs.iter().map(|(k, v)| (k.clone(), unesc(v))).collect(), owner: Some(e.owner.unwrap_or((0, 0))), origin: Origin::Initial, hl: None },
+                MNode { kind, mode: Some(e.eff_mode()), mtime: MTime::At(s, ns), xattrs: e.xattrs.iter().map(|(k, v)| (k.clone(), unesc(v))).collect(), owner: Some(e.owner.unwrap_or(default_owner)), origin: Origin::Initial, hl: None },
             );
         }
         MFs { nodes }
@@ -441,7 +445,8 @@ pub fn expect(s: &Scenario) -> Expectation {
 }
 
 pub fn expect_cfg(s: &Scenario, cfg: &ModelCfg) -> Expectation {
-    let fs0 = MFs::from_tree(&s.tree);
+    let me = s.run_as.unwrap_or((0, 0));
+    let fs0 = MFs::from_tree_as(&s.tree, me);
     let mut ex = Expectation { reject: None, must_fail: None, tree: fs0.nodes.clone(), nfiles: 0, total_len: 0, mapped: vec![], opts: Opts::default() };
     let o = match parse_args(&s.args) {
         Ok(o) => o,
@@ -546,7 +551,7 @@ pub fn expect_cfg(s: &Scenario, cfg: &ModelCfg) -> Expectation {
     let mut fs = MFs { nodes: fs0.nodes.clone() };
     let mut visiting: Vec<String> = vec![];
     for (src, sk, base) in &plan {
-        let mut ctx = Ctx { fs0: &fs0, o: &o, cwd: &cwd, ex: &mut ex, cfg, umask: s.umask, src_root: sk.clone() };
+        let mut ctx = Ctx { fs0: &fs0, o: &o, cwd: &cwd, ex: &mut ex, cfg, umask: s.umask, src_root: sk.clone(), me };
         let _ = src;
         copy_entry(&mut ctx, &mut fs, sk, base, &mut visiting, true);
     }
@@ -562,6 +567,7 @@ struct Ctx<'a, 'b> {
     cfg: &'a ModelCfg<'b>,
     umask: u32,
     src_root: String,
+    me: (u32, u32),
 }
 
 fn fail(ex: &mut Expectation, why: String) {
@@ -624,7 +630,8 @@ fn copy_entry(c: &mut Ctx, fs: &mut MFs, sk: &str, target: &str, visiting: &mut 
             }
             match &existing {
                 None => {
-                    fs.nodes.insert(tkey.clone(), MNode { kind: MKind::Dir, mode: None, mtime: MTime::Any, xattrs: vec![], owner: None, origin: Origin::NewDir, hl: None });
+                    // xcp does not copy directory permissions: a new directory gets the default mode under the umask
+                    fs.nodes.insert(tkey.clone(), MNode { kind: MKind::Dir, mode: Some(0o777 & !c.umask), mtime: MTime::Any, xattrs: vec![], owner: None, origin: Origin::NewDir, hl: None });
                 }
                 Some(e) if e.kind == MKind::Dir => {
                     if e.origin == Origin::Initial {
@@ -746,7 +753,7 @@ fn copy_entry(c: &mut Ctx, fs: &mut MFs, sk: &str, target: &str, visiting: &mut 
             let owner = if c.o.ownership {
                 node.owner
             } else if fresh {
-                Some((0, 0))
+                Some(c.me)
             } else {
                 prev.as_ref().and_then(|p| p.owner)
             };
@@ -844,7 +851,7 @@ pub fn compare(exp: &Expectation, snap: &Snap, root: &str, level: Level, t_start
             }
             _ => {}
         }
-        let check_meta = level == Level::Meta && m.origin == Origin::Copied;
+        let check_meta = level == Level::Meta && (m.origin == Origin::Copied || (m.origin == Origin::NewDir && m.mode.is_some()));
         if check_meta || m.origin == Origin::Initial {
             if let Some(mode) = m.mode {
                 if !matches!(m.kind, MKind::Symlink(_)) && n.mode != mode {
